@@ -64,9 +64,9 @@ func (c C11Config) definition(h *server.VHist, id string) map[string]interface{}
 	case "log1":
 		on = []interface{}{map[string]interface{}{"errorHandler": "log", "maxItems": 1}}
 	case "rerun":
-		on = []interface{}{map[string]interface{}{"errorHandler": "reRun", "maxRetries": 1, "retryDelay": 1}}
+		on = []interface{}{map[string]interface{}{"errorHandler": "reRun", "maxRetries": 1, "retryDelay": 86400}}
 	case "log+rerun":
-		on = []interface{}{map[string]interface{}{"errorHandler": "log"}, map[string]interface{}{"errorHandler": "reRun", "maxRetries": 1, "retryDelay": 1}}
+		on = []interface{}{map[string]interface{}{"errorHandler": "log"}, map[string]interface{}{"errorHandler": "reRun", "maxRetries": 1, "retryDelay": 86400}}
 	}
 	trig := map[string]interface{}{"triggerType": c.Trigger, "jobType": c.JobType, "onError": on}
 	if c.Trigger == "cron" {
@@ -193,8 +193,8 @@ func c11Run(cfg C11Config) (out c11Out) {
 	if !found && panicked == "" {
 		fail("no-run-result", "the run ended but no run result was stored for the job")
 	}
-	// cancel possible re-run timers by stopping retries: they hold the job; wait out at most one retry (1s) is not needed:
-	// re-runs are real timers here and harmless for later configurations (fresh names)
+	// re-run timers are real timers in this enumeration: their delay is a day, so none fires while the worker lives
+	// (a re-run firing during a later configuration would disturb its ticket accounting); re-runs are C17's subject
 	return
 }
 
